@@ -448,6 +448,15 @@ impl Family for B1 {
             enc.extend_from_slice(&ck);
             kr_text = format!("[Key]\nName = mallory-twin-0001\nPublicKey = {}\n\n{}", crate::refmodel::b64::encode(&enc), kr_text);
         }
+        if s.lookalike_sender && s.op == Op::Decrypt && (s.seed >> 9) % 3 == 0 {
+            // the keyring entry that resembles the stranger is a near twin of the stranger's key: all bits but
+            // a few of the last byte are equal (well-formed entry, correct checksum, another key)
+            let carol = rk::encode_pk(&rp::x25519_base(&w.sks[2]));
+            let mut twin = pubs[0];
+            twin[31] ^= if (s.seed >> 12) % 2 == 0 { 1 + ((s.seed >> 13) % 15) as u8 } else { 0x80 };
+            kr_text = kr_text.replace(&carol, &rk::encode_pk(&twin));
+            out.count("probe.near_twin_of_the_sender_in_keyring", 1);
+        }
         let mut results: Vec<(i32, Option<Vec<u8>>, String)> = vec![];
         let mut produced_files: Vec<Vec<u8>> = vec![];
         let mut runs: Vec<(Wiring, Option<u64>)> = s.wirings.iter().map(|wi| (wi.clone(), Some(s.seed ^ 0x5eed))).collect();
@@ -652,7 +661,7 @@ impl Family for B1 {
         // C07: every produced file has its own ephemeral key / salt, also on identical invocations
         for i in 0..produced_files.len() {
             for j in (i + 1)..produced_files.len() {
-                if produced_files[i].len() >= 36 && produced_files[i][4..36] == produced_files[j][4..36] {
+                if produced_files[i].len() >= 36 && produced_files[j].len() >= 36 && produced_files[i][4..36] == produced_files[j][4..36] {
                     // seeded runs share the entropy seed on purpose; only OS-RNG repeats must differ
                     let os_i = i >= s.wirings.len();
                     let os_j = j >= s.wirings.len();
